@@ -78,6 +78,9 @@ func (c *Cluster) extraTasks(faultEndNs int64) {
 			c.Sim.GoProc(c.Sim.Harness, "apifuzz-"+n.ID, func() { c.apiFuzzer(node, faultEndNs) })
 		}
 	}
+	if cfg.Scenario == "slow-quorum" {
+		c.Sim.GoProc(c.Sim.Harness, "scenario-slow-quorum", func() { c.scenarioSlowQuorum(faultEndNs) })
+	}
 	if cfg.Scenario == "lagging-voter" {
 		c.Sim.GoProc(c.Sim.Harness, "scenario-lagging-voter", func() { c.scenarioLaggingVoter(faultEndNs) })
 	}
